@@ -705,3 +705,22 @@ package cl
 //@   ensures identical-objects: eq(x, y) ==> result0
 //@   ensures numbers-by-value: (implements(x, slip.Number) && !is(x, slip.Character) && !eq(x, y)) ==> (result0 == (implements(y, slip.Number) && same(x, y) != nil))
 //@   ensures characters-at-least-by-code: (is(x, slip.Character) && is(y, slip.Character) && asInt(y) == asInt(x)) ==> result0
+
+// C09: vector-pop hands the vector to Pop only when its fill pointer lies inside
+// the vector (adjust-array and make-array can leave it beyond the end): the
+// implementations of Pop index their elements with it unchecked.
+//@ pure-method FillPtrVector.Length FillPtrVector.FillPointer
+//@ func cl.(*VectorPop).Call
+//@   property C09
+//@   on-call Pop fill-pointer-inside-the-vector: 0 < FillPointer(v) && FillPointer(v) < Length(v)
+
+// C14: subsetp answers nil only because an element of list-1 was compared with the
+// elements of list-2 and none matched - never from the lengths alone (duplicates,
+// :key and a :test that is not an equivalence make a longer list-1 a subset).
+//@ func cl.(*Subsetp).Call
+//@   property C14
+//@   count-calls ObjectEqual
+//@   ensures refused-only-after-comparing: (result0 == nil && tc == nil && len(keys) > 0) ==> $ncall_ObjectEqual >= 1
+//@   loop rangeindex+1<len(keys): invariant compared-so-far: $ncall_ObjectEqual >= 0 && (tc == nil ==> $ncall_ObjectEqual >= rangeindex + 1)
+//@   loop rangeindex+1<len(list1): invariant counted-from-zero: $ncall_ObjectEqual >= 0
+//@   loop i<len(list2): invariant counted-from-zero: $ncall_ObjectEqual >= 0
